@@ -26,7 +26,10 @@ def matcher_report(facts, key, contract):
     for name, pred in contract or []:
         bad = [i for i, fs in enumerate(closed) if not pred(fs)]
         if bad:
-            missing.append((name, len(bad), len(ds)))
+            # a conjunct is REFUTED only where the engine understood the whole accepting path; where the path contains atoms it could not interpret
+            # (an extracted helper, an unfamiliar iterator form) the conjunct may be hidden in them: undecided
+            foreign = [a for i in bad for a in rmatch.foreign_atoms(ds[i])]
+            missing.append((name, len(bad), len(ds), foreign))
     return missing, sorted(set(cx.exist_viol)), cx.opaque, len(ds)
 
 
@@ -77,8 +80,12 @@ def _run_own(ck):
             n_contract += 1
             for name, pred in contract:
                 m = [x for x in missing if x[0] == name]
+                if m and m[0][3]:
+                    ck.ob3('R-MATCH', '%s/%s' % (key, name), None, ck.site(key),
+                           '`%s` is not visible on %d of %d accepting paths, but those paths contain conditions the engine cannot interpret (%s): not decided' % (name, m[0][1], m[0][2], str(m[0][3][0])[:80]))
+                    continue
                 ck.ob('R-MATCH', '%s/%s' % (key, name), not m, ck.site(key),
-                      'matcher accepts without establishing `%s` (missing on %d of %d accepting paths): the rule it guards is unsound or panics there' % ((name,) + (m[0][1:] if m else (0, nd))),
+                      'matcher accepts without establishing `%s` (missing on %d of %d accepting paths): the rule it guards is unsound or panics there' % ((name,) + (m[0][1:3] if m else (0, nd))),
                       sample={'conjunct': name, 'accepting_disjuncts': nd})
         for (fn, v, m, line) in ev:
             ck.ob('R-EXIST', '%s/%s/%s' % (key, v, m), False, ck.site(key) + ' line %s' % line,
